@@ -32,6 +32,7 @@ type Run struct {
 	eng      *Engine
 	Obls     []*Oblig
 	Covers   []*Oblig // vacuity checks: must be SAT
+	SiteCovers []*Oblig // per contract application: continuation reachable (diagnostic)
 	Funcs    []FuncInfo
 	Notes    map[string]bool
 	Trusted  []string
@@ -77,6 +78,7 @@ func (r *Run) addExec(x *Exec, prop string) {
 		Text:  "requires are satisfiable and a normal return is reachable under all assumptions",
 		Parts: []OblPart{{NegGoal: x.coverReach, NAssume: len(x.c.Assumes)}}}
 	r.Covers = append(r.Covers, cover)
+	r.SiteCovers = append(r.SiteCovers, x.siteCovers...)
 }
 
 type pinned struct {
@@ -175,7 +177,7 @@ func (r *Run) finish() {
 		r.fatal("zero obligations generated for %s (vacuous check)", r.Prop)
 	}
 	solveStart := time.Now()
-	discharge(append(append([]*Oblig{}, r.Obls...), r.Covers...), dir, timeout, all)
+	discharge(append(append(append([]*Oblig{}, r.Obls...), r.Covers...), r.SiteCovers...), dir, timeout, all)
 	solveSecs := time.Since(solveStart).Seconds()
 
 	expect, haveExpect := r.loadExpect()
@@ -276,6 +278,34 @@ func (r *Run) finish() {
 		if c.Status == "unsat" {
 			vac = append(vac, c.Name)
 		}
+	}
+	// a call site may be executed in several inlined instances (wrapper actions
+	// call the wrapped action on more than one branch): it is dead only if the
+	// continuation is unreachable in every instance
+	deadSites := 0
+	alive := map[string]bool{}
+	siteKey := func(n string) string {
+		if i := strings.LastIndex(n, " #"); i >= 0 {
+			return n[:i]
+		}
+		return n
+	}
+	for _, c := range r.SiteCovers {
+		if c.Status != "unsat" {
+			alive[siteKey(c.Name)] = true
+		}
+	}
+	reported := map[string]bool{}
+	for _, c := range r.SiteCovers {
+		k := siteKey(c.Name)
+		if c.Status == "unsat" && !alive[k] && !reported[k] {
+			reported[k] = true
+			deadSites++
+			fmt.Printf("DEAD-AFTER-CALL %s]\n", k)
+		}
+	}
+	if len(r.SiteCovers) > 0 {
+		fmt.Printf("site covers: %d contract applications checked, %d with an unreachable continuation\n", len(r.SiteCovers), deadSites)
 	}
 	for _, l := range vioLines {
 		fmt.Println(l)
